@@ -148,6 +148,14 @@ class EnumRef:
         self.mod, self.qualname, self.members = mod, qualname, members
 
 
+class GenCall:
+    """a call of a generator function (its body contains `yield`): nothing runs until it is iterated; the interpreter then runs the body and
+    executes the consumer's loop body at every `yield` (generator fusion)"""
+
+    def __init__(self, ref, pos, kw):
+        self.ref, self.pos, self.kw = ref, list(pos), dict(kw)
+
+
 class Each:
     """marks a value produced once per iteration of a loop that was evaluated symbolically"""
 
@@ -190,6 +198,8 @@ def to_term(v: Any) -> T.Term:
         return ("frame", v.ctx())
     if isinstance(v, Each):
         return ("each", to_term(v.value))
+    if isinstance(v, GenCall):
+        return ("gencall", v.ref.qualname) + tuple(to_term(x) for x in v.pos) + tuple(("kw", k, to_term(x)) for k, x in sorted(v.kw.items()))
     if isinstance(v, FuncRef):
         return ("func", v.qualname)
     if isinstance(v, ClassRef):
